@@ -21,7 +21,7 @@ RULE = ("seeded gas/water nets and heating loops of five classes (plain; + t-onl
 ASSUMPTIONS = ["outage patterns are consistent: an out-of-service junction has only out-of-service branches"]
 CONFIG = {"quick": {"shards": 8, "timeout_s": 600, "cases": 300},
           "thorough": {"shards": 16, "timeout_s": 3000, "cases": 8000}}
-REQUIRED_COUNTERS = ["unsupplied_vs_solver_checks", "unsupplied_sets_nonempty", "component_checks", "edge_set_checks", "edge_set_checks_simple_graph",
+REQUIRED_COUNTERS = ["unsupplied_vs_solver_checks", "unsupplied_sets_nonempty", "component_checks", "edge_set_checks", "edge_set_checks_simple_graph", "edge_set_checks_with_index_list",
                      "pi_valve_edge_checks", "closed_pi_valve_checks", "distance_checks", "nets_class_plain", "nets_class_tgrid", "nets_class_loop",
                      "nets_class_fc", "nets_class_pc"]
 CLASSES = ["plain", "tgrid", "loop", "fc", "pc"]
@@ -90,7 +90,8 @@ def expected_edges(spec, kw):
         if t not in GRAPH_KW:
             continue
         g = GRAPH_KW[t]
-        if not kw.get("include_" + g, True):
+        inc = kw.get("include_" + g, True)
+        if inc is False or (isinstance(inc, (list, tuple, set)) and e["name"] not in kw.get("_names_" + g, ())):
             continue
         respect = kw.get("respect_status_" + g, True)
         if t == "valve":
@@ -229,11 +230,19 @@ def run_case(case, ctx):
                 kw["respect_status_" + g] = False
         if rng.random() < 0.2:
             kw["respect_status_junctions"] = False
+        # include_<x> may also be a list of element indices (documented): a random subset of the pipes / valves
+        for t, g in (("pipe", "pipes"), ("valve", "valves")):
+            if t in net and len(net[t]) and rng.random() < 0.3 and "include_" + g not in kw:
+                sub = [int(i) for i in net[t].index[rng.random(len(net[t])) < 0.6]]
+                if sub:
+                    kw["include_" + g] = sub
+                    kw["_names_" + g] = {net[t].at[i, "name"] for i in sub}
+                    obs.count("edge_set_checks_with_index_list")
         multi = bool(rng.random() < 0.7)
         try:
-            g_ = top.create_nxgraph(net, multi=multi, **kw)
+            g_ = top.create_nxgraph(net, multi=multi, **{k: v for k, v in kw.items() if not k.startswith("_")})
         except Exception as e:
-            obs.violate("create_nxgraph_raises", "create_nxgraph(%s) raised %s: %s" % (kw, type(e).__name__, str(e)[:100]), **desc)
+            obs.violate("create_nxgraph_raises", "create_nxgraph(%s) raised %s: %s" % ({k: v for k, v in kw.items() if not k.startswith("_")}, type(e).__name__, str(e)[:100]), **desc)
             continue
         want = expected_edges(spec, kw)
         ename = {t: net[t]["name"].to_dict() for t in GRAPH_KW if t in net and len(net[t])}
@@ -253,8 +262,9 @@ def run_case(case, ctx):
             extra = [x for x in got if x not in exp][:4]
             missing = [x for x in exp if x not in got][:4]
             pi = any(str(x).find("?") >= 0 for x in extra) or any(x[0] == "valve" for x in extra if multi)
+            kwp = {k: v for k, v in kw.items() if not k.startswith("_")}
             obs.violate("pi_valve_graph_edge" if pi else "graph_edges_differ", "create_nxgraph(multi=%s, %s): unexpected edges %s, missing edges %s"
-                        % (multi, kw, extra, missing), kwargs=kw, **desc)
+                        % (multi, kwp, extra, missing), kwargs=kwp, **desc)
         nodes_want = set(jname.values()) - (oos if kw.get("respect_status_junctions", True) else set())
         nodes_got = {jname.get(n, "?%s" % n) for n in g_.nodes()}
         if nodes_got != nodes_want:
